@@ -255,7 +255,7 @@ Example C12_surface_example :
 Proof. repeat split; vm_compute; reflexivity. Qed.
 
 Definition ex_tally : tallycard :=
-  mkTally None (mkDcls (Some "*") "f" (Some 14) [(false, "n"); (false, "p")]) (Some b1)
+  mkTally None (mkDcls (Some "*") "f" (Some 14%Z) [(false, "n"); (false, "p")]) (Some b1)
     (TIGroup None (NLSnoc (NLOne (NNum (ri [1])) (Some b1)) (NNum (ri [2])) None) (Some b1))
     [TINums (NLOne (NNum (ri [3])) (Some b1))] (Some ("t", None)).
 Example C12_tally_example :
@@ -266,7 +266,7 @@ Example C12_tally_example :
 Proof. repeat split; vm_compute; reflexivity. Qed.
 
 Definition ex_mat : matcard :=
-  mkMat None 2 (Some b1)
+  mkMat None 2%Z (Some b1)
     (mkZ false "1001" (Some b1) (ri [2]) (Some b1))
     [mkZ true "8016.80c" (Some b1) (ri [1]) (Some b1)]
     [MPLib "nlib" (SepEq None None) "80c" (Some b1); MPNum "gas" (SepEq None None) (NLOne (NNum (ri [1])) None)].
